@@ -96,6 +96,9 @@ func c13Menu(size string) []c13Cmd {
 	userTrunc := fsm.EncodeUpsertUserCommand(metadb.User{UID: "u1", Token: "a"})
 	userTrunc = userTrunc[:len(userTrunc)-3]
 
+	latest := func(hs uint16, id string, seq uint64) fsm.ChannelLatestBatchItem {
+		return fsm.ChannelLatestBatchItem{HashSlot: hs, Latest: metadb.ChannelLatest{ChannelID: id, ChannelType: 2, LastMessageID: seq, LastMessageSeq: seq, LastAt: 10, FromUID: "u1", ClientMsgNo: "n", Payload: []byte("p"), UpdatedAt: 10}}
+	}
 	core := []c13Cmd{
 		mk("user-upsert:u1:a", "valid", c13HS, fsm.EncodeUpsertUserCommand(metadb.User{UID: "u1", Token: "a", DeviceFlag: 1})),
 		mk("user-create:u1:b", "conflict", c13HS, fsm.EncodeCreateUserCommand(metadb.User{UID: "u1", Token: "b"})),
@@ -123,6 +126,7 @@ func c13Menu(size string) []c13Cmd {
 			m.MinISR = 5
 			return fsm.EncodeUpsertChannelRuntimeMetaCommand(m)
 		}()),
+		mk("notowned-item:latest-batch", "notowned", c13HS, fsm.EncodeUpsertChannelLatestBatchCommand([]fsm.ChannelLatestBatchItem{latest(c13HS, "c1", 7), latest(c13Foreign, "c9", 8)})),
 	}
 	pick := func(labels ...string) []c13Cmd {
 		var out []c13Cmd
@@ -173,9 +177,6 @@ func c13Menu(size string) []c13Cmd {
 	if err != nil {
 		panic(err)
 	}
-	latest := func(hs uint16, id string, seq uint64) fsm.ChannelLatestBatchItem {
-		return fsm.ChannelLatestBatchItem{HashSlot: hs, Latest: metadb.ChannelLatest{ChannelID: id, ChannelType: 2, LastMessageID: seq, LastMessageSeq: seq, LastAt: 10, FromUID: "u1", ClientMsgNo: "n", Payload: []byte("p"), UpdatedAt: 10}}
-	}
 	dupJSON := append([]byte{1, 30}, func() []byte { // create-task payload with a duplicate JSON key
 		p := []byte(`{"TaskID":"T1","TaskID":"T9"}`)
 		b := []byte{1, 0, 0, 0, byte(len(p))}
@@ -197,7 +198,6 @@ func c13Menu(size string) []c13Cmd {
 	)
 	full = append(full, coreBad...)
 	full = append(full,
-		mk("notowned-item:latest-batch", "notowned", c13HS, fsm.EncodeUpsertChannelLatestBatchCommand([]fsm.ChannelLatestBatchItem{latest(c13HS, "c1", 7), latest(c13Foreign, "c9", 8)})),
 		mk("notowned-item:rtm-create", "notowned", c13HS, rtmCreateForeign),
 		mk("bad-json:dup-key", "malformed", c13HS, dupJSON),
 		mk("bad-semantic:user-empty-uid", "malformed", c13HS, fsm.EncodeUpsertUserCommand(metadb.User{Token: "a"})),
@@ -539,18 +539,18 @@ func (t *c13Trace) lastKind() string {
 // commands with raft indexes first..last: the index never moves backwards, is either unchanged
 // or the index of a command of this batch, and every command above it was a stale no-op
 // (the only commands whose write batch is legitimately not committed).
-func c13CheckApplied(prev, now, first uint64, res [][]byte, kind, where string) error {
+func c13CheckApplied(prev, now, first uint64, res [][]byte, _ string, where string) error {
 	last := first + uint64(len(res)) - 1
 	if now < prev {
-		return mc.Violatef("C13:applied-index-moved-backwards:"+kind, "%s: durable applied index %d -> %d", where, prev, now)
+		return mc.Violatef("C13:applied-index-moved-backwards", "%s: durable applied index %d -> %d", where, prev, now)
 	}
 	if now != prev && (now < first || now > last) {
-		return mc.Violatef("C13:applied-index-outside-batch:"+kind, "%s: durable applied index %d is neither the previous value %d nor an index of the batch [%d,%d]", where, now, prev, first, last)
+		return mc.Violatef("C13:applied-index-outside-batch", "%s: durable applied index %d is neither the previous value %d nor an index of the batch [%d,%d]", where, now, prev, first, last)
 	}
 	for i, r := range res {
 		idx := first + uint64(i)
 		if idx > now && string(r) != fsm.ApplyResultStaleMeta {
-			return mc.Violatef("C13:applied-index-behind-applied-command:"+kind, "%s: command index %d returned %q but the durable applied index is only %d (a restart would apply it twice)", where, idx, c13ResClass(r), now)
+			return mc.Violatef("C13:applied-index-behind-applied-command", "%s: command index %d returned %q but the durable applied index is only %d (a restart would apply it twice)", where, idx, c13ResClass(r), now)
 		}
 	}
 	return nil
@@ -1007,6 +1007,18 @@ func (g *c13Garbage) feed(hs uint16, data []byte, what string) (string, *ev.Viol
 	if !bytes.Equal(snap, g.cur) {
 		// the payload was a well-formed command: put the seed state back through the real restore path
 		out = "accepted:changed"
+		var foreign *ev.Violation
+		if exp, err := g.node.db.ExportHashSlotSnapshot(c13Ctx, []uint16{c13Foreign}); err != nil {
+			panic(fmt.Sprintf("c13 harness: export: %v", err))
+		} else if exp.Stats.EntryCount != 0 {
+			// an accepted command wrote rows into a hash slot the slot does not own
+			if err := g.node.db.DeleteHashSlotData(c13Ctx, c13Foreign); err != nil {
+				panic(fmt.Sprintf("c13 harness: wipe foreign hash slot: %v", err))
+			}
+			out = "accepted:wrote-foreign-hash-slot"
+			foreign = &ev.Violation{Fingerprint: "C13:not-owned-hash-slot-written:" + strings.SplitN(what, ":", 2)[0], System: "garbage",
+				Message: fmt.Sprintf("%s payload %x was accepted and wrote %d entries into hash slot %d, which slot %d does not own", what, data, exp.Stats.EntryCount, c13Foreign, c13Slot), Replay: replay}
+		}
 		if err := g.node.sm.Restore(c13Ctx, multiraft.Snapshot{Index: g.idx, Term: 1, Data: append([]byte(nil), g.seedRestore...)}); err != nil {
 			panic(fmt.Sprintf("c13 harness: re-seeding failed: %v", err))
 		}
@@ -1015,6 +1027,10 @@ func (g *c13Garbage) feed(hs uint16, data []byte, what string) (string, *ev.Viol
 			panic("c13 harness: re-seeding did not restore the seed snapshot")
 		}
 		g.cur, a = g.seedSnap, ba
+		if foreign != nil {
+			g.curIdx = a
+			return out, foreign
+		}
 	}
 	g.curIdx = a
 	return out, nil
@@ -1103,15 +1119,14 @@ func c13RunGarbage(r *ev.R) {
 	e.Done(true, map[string]any{"valid_encodings": len(encs), "command_types": len(typesSeen), "mutation_values_per_byte": ev.Pick(r, "0x00,0xff,^1,^0x80,+1,-1", "quick set + every single-bit flip, +-2, +-16, 0x01,0x7f,0x80,0xfe and the JSON structural characters"),
 		"truncations": "every proper prefix"}, "each payload is applied as its own batch on a replica seeded with user/channel/subscribers/runtime-meta/task; oracle: no panic, refused => snapshot and applied index unchanged")
 
-	// 2. tiny bodies: every body of <=1 byte for every command-type byte; thorough additionally every 2-byte
-	// body for every command type that has a valid encoding above and for some unregistered type bytes
+	// 2. tiny bodies: every body of <=1 byte for every command-type byte; thorough additionally every 2-byte body
 	e2 := r.NewEnum("garbage-tiny-bodies")
 	deep := map[int]bool{}
 	if thorough {
 		for tb := range typesSeen {
 			deep[int(tb)] = true
 		}
-		for _, tb := range []int{0, 10, 11, 12, 13, 14, 16, 17, 18, 58, 60, 66, 100, 200, 254, 255} {
+		for tb := 0; tb < 256; tb++ {
 			deep[tb] = true
 		}
 	}
@@ -1133,23 +1148,59 @@ func c13RunGarbage(r *ev.R) {
 				if deep[typ] {
 					maxBody = 2
 				}
-				body := make([]byte, 0, 2)
-				var rec func(depth int)
-				rec = func(depth int) {
-					data := append([]byte{1, byte(typ)}, body...)
-					out, v := gw.feed(c13HS, data, "tiny-body:type")
+				for _, body := range [][]byte{{}} {
+					out, v := gw.feed(c13HS, append([]byte{1, byte(typ)}, body...), "tiny-body:type")
 					report(v)
 					e2.CaseByConstruction(true, out)
-					if depth == maxBody {
-						return
+				}
+				for b0 := 0; b0 < 256; b0++ {
+					out, v := gw.feed(c13HS, []byte{1, byte(typ), byte(b0)}, "tiny-body:type")
+					report(v)
+					e2.CaseByConstruction(true, out)
+					if maxBody < 2 {
+						continue
 					}
-					for b := 0; b < 256; b++ {
-						body = append(body, byte(b))
-						rec(depth + 1)
-						body = body[:len(body)-1]
+					// the 256 two-byte bodies with this first byte: applied back to back, state compared once per block;
+					// a block with an accepted payload or a changed state is repeated payload by payload from the seed state
+					clean := true
+					outs := make([]string, 256)
+					for b1 := 0; b1 < 256; b1++ {
+						gw.idx++
+						_, err := gw.node.apply([]c13Cmd{{label: "tiny", slot: c13Slot, hs: c13HS, data: []byte{1, byte(typ), byte(b0), byte(b1)}}}, gw.idx)
+						if err == nil || gw.node.poisoned {
+							clean = false
+							break
+						}
+						outs[b1] = c13ErrClass(err)
+					}
+					if clean {
+						snap, a := gw.node.state()
+						clean = bytes.Equal(snap, gw.cur) && a == gw.curIdx
+					}
+					if clean {
+						for _, o := range outs {
+							e2.CaseByConstruction(true, o)
+						}
+						continue
+					}
+					if gw.node.poisoned {
+						gw.node.release()
+						*gw = *c13NewGarbage()
+					} else {
+						if err := gw.node.sm.Restore(c13Ctx, multiraft.Snapshot{Index: gw.idx, Term: 1, Data: append([]byte(nil), gw.seedRestore...)}); err != nil {
+							panic(fmt.Sprintf("c13 harness: re-seeding failed: %v", err))
+						}
+						gw.cur, gw.curIdx = gw.node.state()
+						if !bytes.Equal(gw.cur, gw.seedSnap) {
+							panic("c13 harness: re-seeding did not restore the seed snapshot")
+						}
+					}
+					for b1 := 0; b1 < 256; b1++ {
+						out, v := gw.feed(c13HS, []byte{1, byte(typ), byte(b0), byte(b1)}, "tiny-body:type")
+						report(v)
+						e2.CaseByConstruction(true, out)
 					}
 				}
-				rec(0)
 			}
 		}(w)
 	}
